@@ -37,6 +37,9 @@ CHECKS = {
  "C17": dict(technique="PBT over event streams with per-event deterministic worlds and gated sources; per-event differential against the reference executor; refusal cases with pull counter",
              text="Subscription operations over generated schemas are driven with 0-8 events through plain and coroutine subscription resolvers whose sources and coroutine field resolvers await harness gates; one result per event, in order, equal to the reference executor on that event, no foreign errors; documented refusals raise before the source is pulled.",
              note="Trusted: EvWorld/Source/driver in props/c17.py, vlib/ref/exec.py.", ref="3/C17"),
+ "C10": dict(technique="PBT/fuzz of whole requests (truncation sweep, token and AST mutation, bad operation names and variable payloads, faulted worlds) with a response-format validity predicate and reference-executor error matching",
+             text="Every generated request through three entry points must return a GraphQLResult whose response is strict JSON in the specification's format (message, 1-based in-text locations, path, extensions), with data absent exactly after parse/validation failures, error paths pointing at nulls and, for executed requests, exactly one error per faulted position as computed by the reference executor.",
+             note="Trusted: check_response in props/c10.py, reference parser for the parse verdict, library validation for the validation verdict (tied to the specification by C06).", ref="3/C10"),
 }
 ALL = ["C%02d" % i for i in range(1, 21)]
 NA_REASON = "check not built yet (work in progress; see DESIGN.md section 3 for the planned design)"
